@@ -2617,3 +2617,40 @@ def cellcount_rules(run, rule, ast):
                 why = "does not start at 1" if not ok0 else "is not multiplied once per dimension (loop over all of `groups`, unconditionally)" if not okl else \
                     ("the factor is `%s`, not the dimension's %s" % (astq.text(factor)[:60], "group count" if per_dim == "size" else "count of groups with concrete classes")) if not okf else "is not restricted to methods with two or more virtual parameters"
                 run.violation(rule, "compiler::build_dispatch_tables|%s" % field, "report.%s %s" % (field, why), (f["file"], mul[0]["l"]))
+
+
+
+def group_concrete_rules(run, rule, ast):
+    """a group of classes has concrete classes iff ANY of its classes is not abstract: the flag is accumulated for every class
+    that joins a group, not decided by the class that happens to create the group"""
+    for f in by_name(ast, "build_dispatch_tables"):
+        byid, parent = astq.index_nodes(f)
+        stores = [n for n in astq.walk(f["body"]) if ((n.get("k") == "BinaryOperator" and n.get("op") == "=") or (n.get("k") == "CompoundAssignOperator" and n.get("op") == "|=")) and
+                  astq.strip(n["c"][0]).get("k") == "MemberExpr" and astq.strip(n["c"][0]).get("member") == "has_concrete_classes"]
+        cls_loops = [lp for lp in astq.walk(f["body"]) if lp.get("k") == "CXXForRangeStmt" and _members(lp["range"])[:1] == ["covariant_classes"]]
+        ok = False
+        why = "no accumulation of has_concrete_classes in the loop over a parameter's covariant classes"
+        for n in stores:
+            lps = [lp for lp in cls_loops if _in_subtree(lp["body"], n)]
+            if not lps:
+                continue
+            lv = lps[0]["var"]["did"]
+            rhs = n["c"][1]
+            uses_abs = any(x.get("k") == "MemberExpr" and x.get("member") == "is_abstract" and _refs(x, lv) for x in astq.walk(rhs))
+            ifs = [i for i in _enclosing(parent, n, ("IfStmt",)) if _in_subtree(lps[0]["body"], i)]
+            if n.get("k") == "CompoundAssignOperator" and uses_abs and not ifs:
+                ok = astq.canon(rhs)[0] == "not"
+            elif n.get("k") == "BinaryOperator" and uses_abs and not ifs:
+                r0 = astq.strip(rhs)
+                ok = r0.get("k") == "BinaryOperator" and r0.get("op") == "||" and any(x.get("k") == "MemberExpr" and x.get("member") == "has_concrete_classes" for x in astq.walk(r0)) and \
+                    any(astq.canon(side)[0] == "not" and "is_abstract" in str(astq.canon(side)) for side in r0["c"])
+            elif n.get("k") == "BinaryOperator" and len(ifs) == 1 and astq.strip(rhs).get("k") == "CXXBoolLiteralExpr" and astq.strip(rhs).get("v"):
+                cf = astq.canon(ifs[0]["cond"])
+                ok = cf[0] == "not" and "is_abstract" in str(cf) and _refs(ifs[0]["cond"], lv) and _in_subtree(ifs[0].get("then"), n)
+            if not ok:
+                why = "`%s` is not 'flag = flag || !class->is_abstract' for the class joining the group" % astq.text(n)[:80]
+            else:
+                break
+        run.instance(rule, "%s: a group's has_concrete_classes is accumulated over every class that joins it" % short(f), (f["file"], (stores or [f["body"]])[0].get("l", f["line"])), ok=ok)
+        if not ok:
+            run.violation(rule, "compiler::build_dispatch_tables|group-concreteness", "%s: a group whose first class is abstract but which also holds concrete classes counts as abstract, and the concrete-only figures of the report are too low" % why, (f["file"], (stores or [f["body"]])[0].get("l", f["line"])))
